@@ -204,6 +204,45 @@ fn audit_misc(rng: &mut Lcg) {
     println!("OK audit A9 RwLock::try_write, A10 slice::sort_by stable permutation");
 }
 
+/// A11: inside a tokio runtime `poll_recv` may return Pending although values are buffered (the task's cooperative budget is
+/// used up); the stub allows that only together with a wake-up that is already signalled (`self_woken`), never silently.
+/// Also: a try_write on a lock whose read guard is held elsewhere fails (what the S51 stub repair relies on).
+fn audit_tokio_runtime() {
+    // the poll passes the TASK's context on, as fn_graph does; on a budget-Pending tokio defers the wake-up of that waker to
+    // the moment the task yields, so the observable contract is: the task is polled again without any channel event
+    let (dtx, drx) = std::sync::mpsc::channel();
+    std::thread::spawn(move || {
+        let rt = tokio::runtime::Builder::new_current_thread().build().expect("tokio runtime");
+        let r = rt.block_on(async {
+            let (tx, mut rx) = mpsc::channel::<u32>(1000);
+            for i in 0..600 { tx.try_send(i).unwrap(); }
+            let mut got = 0usize; let mut spurious = 0usize; let mut polls = 0usize;
+            std::future::poll_fn(|cx| {
+                polls += 1;
+                loop {
+                    match rx.poll_recv(cx) {
+                        Poll::Ready(Some(v)) => { if v as usize != got { fail("A11 poll_recv", format!("out of order: {v} at position {got}")); } got += 1; if got == 600 { return Poll::Ready(()); } }
+                        Poll::Ready(None) => fail("A11 poll_recv", "Ready(None) with a live sender".into()),
+                        Poll::Pending => { spurious += 1; return Poll::Pending; } // values are still buffered: only the runtime can wake us
+                    }
+                }
+            }).await;
+            drop(tx);
+            (spurious, got, polls)
+        });
+        let _ = dtx.send(r);
+    });
+    let (spurious, got, polls) = match drx.recv_timeout(std::time::Duration::from_secs(10)) {
+        Ok(x) => x,
+        Err(_) => fail("A11 poll_recv", "Pending with values still buffered and the task was never polled again (no wake-up scheduled by the runtime)".into()),
+    };
+    let l = tokio::sync::RwLock::new(1usize);
+    let rg = l.try_read().unwrap();
+    if l.try_write().is_ok() { fail("A9 try_write", "granted while a read guard is held".into()); }
+    drop(rg);
+    println!("OK audit A11 tokio runtime: poll_recv returned Pending with values still buffered {spurious} time(s) while draining {got} values; each time the runtime polled the task again by itself ({polls} polls, no channel event in between); try_write fails while a read guard is held");
+}
+
 fn main() {
     let seed = std::env::var("VERIF_SEED").ok().and_then(|s| s.parse().ok()).unwrap_or(1u64);
     let mut rng = Lcg(seed.wrapping_mul(2862933555777941757) + 3037000493);
@@ -211,5 +250,6 @@ fn main() {
     audit_mpsc(&mut rng);
     audit_futures(&mut rng);
     audit_misc(&mut rng);
+    audit_tokio_runtime();
     println!("OK audit_deps: every audited dependency contract agrees with the real crates on the explored inputs");
 }
